@@ -25,6 +25,7 @@ import DSymVerif.Proofs.CoversIso
 import DSymVerif.Proofs.CoversComplete
 import DSymVerif.Proofs.CoversUniversal
 import DSymVerif.Proofs.CoversPi1Table
+import DSymVerif.Proofs.CoversNoFuel
 import DSymVerif.Proofs.DSetExamples
 
 namespace DSymVerif.C05
@@ -559,6 +560,78 @@ theorem finite_universal_cover_simply_connected (ds : DSymData) (hs : ValidSym d
 example : ValidSym (DSymData.ofSimple ex2) ∧ 1 ≤ (DSymData.ofSimple ex2).size ∧
     1 ≤ (DSymData.ofSimple ex2).dim ∧ (DSymData.ofSimple ex2).view.isConnected = true :=
   ⟨ex2_validSym, by decide, by decide, by decide +kernel⟩
+
+/-! ### 5d. `covers` without a fuel hypothesis
+
+`Covers.coversAll ds k` (Model/CoversAll.lean) is the model of `covers(ds, k)` with the search-node
+budget of the `coset_tables` model set to `Cosets.searchFuel nr_gens k`, which exceeds the size of
+the whole search tree (C12 `coset_tables_fuel_adequate`); `Covers.covers ds k fuel` equals it for
+every `fuel ≥ searchFuel` (`covers_fuel_irrelevant`).  The driver runs `coversAll`. -/
+
+/-- the fuel parameter of the model of `covers` is irrelevant from `searchFuel` on -/
+theorem covers_fuel_irrelevant (ds : DSymData) (f : FundGroup) (hf : fundamentalGroup ds = .ok f)
+    (k fuel : Nat) (h : searchFuel f.nrGenerators k ≤ fuel) :
+    Covers.covers ds k fuel = coversAll ds k :=
+  covers_more_fuel_same hf k fuel h
+
+example : ∃ f, fundamentalGroup (DSymData.ofSimple ex2) = .ok f := FGP.fundamentalGroup_ok ex2_validSym
+
+/-- **covers_returns_coverings.**  For every valid symbol and every `k` the model of `covers(ds, k)`
+    returns — no panic, no budget — a list of coverings of `ds` (`IsCoverOf`) with at most
+    `max k 1` sheets. -/
+theorem covers_returns_coverings (ds : DSymData) (hs : ValidSym ds) (hsz : 1 ≤ ds.size)
+    (hdim : 1 ≤ ds.dim) (k : Nat) :
+    ∃ cs, coversAll ds k = .ok cs ∧ ∀ c ∈ cs, ∃ n, IsCoverOf ds c n ∧ n ≤ max k 1 :=
+  coversAll_covering hs hsz hdim k
+
+example : ValidSym (DSymData.ofSimple ex2) ∧ 1 ≤ (DSymData.ofSimple ex2).size ∧
+    1 ≤ (DSymData.ofSimple ex2).dim := ⟨ex2_validSym, by decide, by decide⟩
+
+/-- **covers_classifies_coverings.**  `covers_exactly_the_coverings` without the fuel hypothesis:
+    for every connected valid symbol and every `k`, the list returned by the model of
+    `covers(ds, k)` is a complete irredundant system of representatives of the connected coverings
+    of `ds` with at most `k` sheets up to isomorphism over `ds`. -/
+theorem covers_classifies_coverings (ds : DSymData) (hs : ValidSym ds) (hsz : 1 ≤ ds.size)
+    (hdim : 1 ≤ ds.dim) (hconn : ds.view.isConnected = true) (k : Nat) :
+    ∃ cs, coversAll ds k = .ok cs ∧
+      (∀ c' ∈ cs, ∃ n, IsCoverOf ds c' n ∧ n ≤ max k 1 ∧ c'.view.isConnected = true) ∧
+      cs.Pairwise (fun c1 c2 => ∀ φ, ¬ (c2.size = c1.size ∧ CoverIso ds c1 c2 c1.size φ)) ∧
+      (∀ c j, IsCoverOf ds c j → j ≤ k →
+        ∃ c' ∈ cs, ∃ φ, c'.size = c.size ∧ CoverIso ds c c' c.size φ) :=
+  coversAll_exactly hs hsz hdim hconn k
+
+example : ValidSym (DSymData.ofSimple ex2) ∧ (DSymData.ofSimple ex2).view.isConnected = true :=
+  ⟨ex2_validSym, by decide +kernel⟩
+
+/-- **covers_classes_and_groups.**  Without fuel: every entry `c` of the model of `covers(ds, k)`
+    (connected valid `ds`) is the covering of a valid coset table of the returned presentation
+    (`TableOps`), its number of sheets is the index of the stabiliser of row 0, and its textbook
+    orbifold group embeds into that of `ds` with range that stabiliser (under `rhoT`); and every
+    subgroup of index `1..k` of the presented group is conjugate to the row-0 stabiliser of the
+    table of some entry. -/
+theorem covers_classes_and_groups (ds : DSymData) (hs : ValidSym ds) (hsz : 1 ≤ ds.size)
+    (hdim : 1 ≤ ds.dim) (hconn : ds.view.isConnected = true) (k : Nat) :
+    ∃ (f : FundGroup) (hf : fundamentalGroup ds = .ok f) (cs : List DSymData),
+      coversAll ds k = .ok cs ∧
+      (∀ c ∈ cs, ∃ (v : List (List Int))
+          (hv : CosetP.Valid (CosetInvP.viewTab v) f.nrGenerators f.relators []),
+          IsCoverOf ds c (CosetInvP.viewTab v).size ∧
+          TableOps ds c f.edgeToWord (CosetInvP.viewTab v) f.nrGenerators ∧
+          (CosetP.stab0 hv).index = (CosetInvP.viewTab v).size ∧
+          (CosetInvP.viewTab v).size ≤ max k 1 ∧
+          ∃ φ : FGP.TGroup c →* FGP.TGroup ds, Function.Injective φ ∧
+            φ.range = (MulAction.stabilizer (Equiv.Perm (Fin (CosetInvP.viewTab v).size))
+                (⟨0, hv.pos⟩ : Fin (CosetInvP.viewTab v).size)).comap (rhoT hs hdim hf hv)) ∧
+      (∀ H : Subgroup (PresentedGroup (CosetP.relSet f.nrGenerators f.relators)),
+        H.index ≠ 0 → H.index ≤ k →
+        ∃ c ∈ cs, ∃ (v : List (List Int))
+          (hv : CosetP.Valid (CosetInvP.viewTab v) f.nrGenerators f.relators []),
+          TableOps ds c f.edgeToWord (CosetInvP.viewTab v) f.nrGenerators ∧
+          CanonP.SubConj H (CosetP.stab0 hv)) :=
+  coversAll_classes_groups hs hsz hdim hconn k
+
+example : ValidSym (DSymData.ofSimple ex2) ∧ (DSymData.ofSimple ex2).view.isConnected = true :=
+  ⟨ex2_validSym, by decide +kernel⟩
 
 /-- every fibre of the projection of an `n`-sheeted cover has exactly `n` chambers -/
 theorem cover_fibres (sz b n : Nat) (hb1 : 1 ≤ b) (hb2 : b ≤ sz) :
